@@ -599,6 +599,18 @@ func checkC03(p *Program, r *Report) {
 		c03argument(p, r, tg.name, g, R)
 	}
 	c03inject(p, r)
+	// what reaches the checksum is the input: no Unicode case mapping of unchecked input, exact ASCII folding
+	{
+		var roots []*ssa.Function
+		for _, n := range [][2]string{{"", "DecodeAddress"}, {"", "DecodeCashAddress"}, {"bech32", "Decode"}} {
+			if fn := p.Func(n[0], n[1]); fn != nil {
+				roots = append(roots, fn)
+			}
+		}
+		wholeInputRule(p, r, "C03.inject")
+		canonicalInput(p, r, "C03.inject", roots)
+		asciiFoldExact(p, r, "C03.inject", roots)
+	}
 	r.Floor("C03.lfsr", 10)
 	r.Floor("C03.accept", 4)
 	r.Floor("C03.inject", 3)
@@ -884,6 +896,19 @@ func c03inject(p *Program, r *Report) {
 	if bd := p.Func("bech32", "Decode"); bd != nil {
 		ok, how := mixedCaseRejects(p, bd)
 		r.Add(c03InjectRule, FnName(bd), "mixed-case bech32 strings reject", bd.Pos(), ok, how)
+		// bech32 symbol decoding: position in the searched charset, or a reverse table that inverts it
+		_, srch := constStringUses(p, bd)
+		d := ""
+		for _, s := range srch {
+			if len(s) == 32 {
+				d = s
+			}
+		}
+		if d != "" {
+			r.Add(c03InjectRule, FnName(bd), "bech32 symbol decoding is injective: position in the searched 32-symbol charset", bd.Pos(), d == bip173Charset && distinctChars(d), "strings.IndexByte over distinct symbols; −1 rejects")
+		} else if !reverseTableRule(p, r, c03InjectRule, bd, bip173Charset, "bech32") {
+			r.Unresolved(c03InjectRule, "bech32 symbol decoding (searched charset or reverse table)")
+		}
 	}
 }
 
